@@ -11,6 +11,8 @@ import (
 	"context"
 	"errors"
 	"fmt"
+	"io"
+	"net"
 	"strings"
 	"sync"
 	"testing"
@@ -72,6 +74,9 @@ func vfRunCrashPoint(t *testing.T, spec *vfSpec, res *vfRes) {
 		var stateAtFire uint32
 		var parkedAtFire []string
 		reason := "vf-abort-reason-" + spec.ID
+		// which error the failing transport reports is an input: real transports return io.EOF, closed-pipe
+		// and net.ErrClosed as well as their own errors
+		injErr := []error{errVFInjected, io.EOF, io.ErrClosedPipe, net.ErrClosed}[vfHash(spec.Seed, 0xe44)%4]
 
 		doAction := func() {
 			defer close(actionDone)
@@ -98,6 +103,7 @@ func vfRunCrashPoint(t *testing.T, spec *vfSpec, res *vfRes) {
 					_ = conn.Close()
 				}
 			case "close3":
+				_ = injErr
 				if a == nil {
 					_ = conn.Close()
 
@@ -125,10 +131,10 @@ func vfRunCrashPoint(t *testing.T, spec *vfSpec, res *vfRes) {
 				}
 			case "readerr":
 				sim.apiCall(side, "aclose", 0)
-				conn.failRead(errVFInjected)
+				conn.failRead(injErr)
 			case "writeerr":
 				sim.apiCall(side, "aclose", 0)
-				conn.failWrite(errVFInjected)
+				conn.failWrite(injErr)
 				// make sure a write is attempted so that the failure is observed
 				if a != nil {
 					a.ActiveHeartbeat()
@@ -471,6 +477,11 @@ func vfGenCrashSpecs(tier string, seed uint64, race bool) []vfSpec {
 					}
 					sp.X = map[string]int64{"event": int64(ev), "side": int64(side), "sdside": int64(r.Intn(2))}
 					sp.XS = map[string]string{"action": act}
+					if kind != "cp-handshake" && r.Intn(2) == 0 {
+						// seeded delays at the suspension points (between the blocking-write gate's unlock and its wait,
+						// before the transport write, after the transport read): the action then also lands inside them
+						sp.Yield = r.Pick(150, 400)
+					}
 					out = append(out, sp)
 					idx++
 				}
